@@ -130,12 +130,39 @@ struct IoOps {
             const Cat cat = ioCat(r, binary);
             r.env.dirty = true;
             const std::string p = r.env.dir + (binary ? "/f.bin" : "/f.txt");
-            const int fault = (int)modn(op.y, 4); // 0 none, 1 none, 2 read-eio, 3 short reads
+            const int fault = (int)modn(op.y, 8); // 0,1 none; 2 read-eio; 3 short reads; 4 full disk while writing; 5 throwing label formatter
             simdisk::Ctl &c = simdisk::ctl();
             simdisk::disarm();
             c.watchPath = p.c_str();
             if (r.m.n == 0) r.res.probes.inc("persist_size0");
             if (r.m.e.empty()) r.res.probes.inc("persist_no_edges");
+            if (fault == 4 || fault == 5) {
+                // The properties promise nothing about the file after a failed write or a throwing callback - but the writer must
+                // stay memory safe (C17): nothing is compared, the memory checkers watch.
+                bool threw = false;
+                if (fault == 4 && simdisk::linked()) {
+                    c.writeFailAt = (long)modn(op.a, 64);
+                    try { libWrite(*r.g, p, binary); } catch (const std::exception &) { threw = true; }
+                    ++r.faultsFired;
+                    r.res.faults.inc("write_enospc");
+                } else if (fault == 5 && !binary) {
+                    if constexpr (kind == LABELED && Codec<L>::text) {
+                        const unsigned failAfter = modn(op.a, 4);
+                        unsigned calls = 0;
+                        try {
+                            BaseGraph::io::writeTextEdgeList<A::template GT, L>(*r.g, p, [&](const L &l) -> std::string {
+                                if (calls++ >= failAfter) throw std::runtime_error("label formatter failed");
+                                return Codec<L>::toStr(l);
+                            });
+                        } catch (const std::exception &) { threw = true; }
+                        ++r.faultsFired;
+                        r.res.faults.inc("throwing_label_formatter");
+                    }
+                }
+                if (threw) r.res.probes.inc("writer_threw_under_fault");
+                simdisk::disarm();
+                return;
+            }
             libWrite(*r.g, p, binary);
             simdisk::disarm();
             std::string bytes;
@@ -165,7 +192,7 @@ struct IoOps {
             // reload
             c.watchPath = p.c_str();
             if (fault == 2 && simdisk::linked()) { c.readMode = 1; c.readAt = bytes.empty() ? 0 : (long)modn(op.a, (unsigned)bytes.size() + 1); }
-            if (fault == 3 && simdisk::linked()) { c.readMode = 2; c.gran = 1 + (long)modn(op.b, 13); c.eintrEvery = (op.a & 1) ? 2 + (int)modn(op.a >> 1, 5) : 0; }
+            if (fault == 3 && simdisk::linked()) { c.readMode = 2; c.gran = 1 + (long)modn(op.b, 13); c.eintrEvery = (op.a & 1) ? 2 + (int)modn(op.a >> 1, 5) : 0; c.noSeek = (op.b & 1) != 0; }
             const int mode = c.readMode;
             const long eioAt = c.readAt;
             const long eintr0 = c.eintrs;
@@ -191,7 +218,7 @@ struct IoOps {
                 return; // the run continues on the original object
             }
             if (threw) { r.mismatch(cat, "loader_threw_on_own_file", what); return; }
-            if (mode == 2) { ++r.faultsFired; r.res.faults.inc("short_read"); if (c.eintrs > eintr0) r.res.faults.inc("read_eintr"); }
+            if (mode == 2) { ++r.faultsFired; r.res.faults.inc("short_read"); if (c.eintrs > eintr0) r.res.faults.inc("read_eintr"); if (op.b & 1) r.res.faults.inc("unseekable_file"); }
             ++r.faultsFired;
             r.res.faults.inc(binary ? "persist_reload_binary" : "persist_reload_text");
             if (loaded->getSize() != fileEx.m.n)
@@ -288,7 +315,7 @@ struct IoOps {
             const Cat cat = strict ? (binary ? IO14 : IO13) : IO15;
             simdisk::Ctl &c = simdisk::ctl();
             simdisk::disarm();
-            if (strict && modn(op.b, 3) == 0 && simdisk::linked()) { c.watchPath = p.c_str(); c.readMode = 2; c.gran = 1 + (long)modn(op.a, 9); }
+            if (strict && modn(op.b, 3) == 0 && simdisk::linked()) { c.watchPath = p.c_str(); c.readMode = 2; c.gran = 1 + (long)modn(op.a, 9); c.noSeek = (op.a & 16) != 0; }
             bool threw = false;
             std::string what;
             std::unique_ptr<G> loaded;
